@@ -306,6 +306,7 @@ def run_verus(unit: VerusUnit, obs_by_name, workdir, rlimit=None, timeout=600):
     with open(path, "w") as f:
         f.write(unit.text)
     cmd = ["verus", path, "--output-json", "--time", "--multiple-errors", "50"]
+    rlimit = rlimit or getattr(unit, "rlimit", None)
     if rlimit:
         cmd += ["--rlimit", str(rlimit)]
     t0 = time.time()
